@@ -21,6 +21,10 @@ def _store_names(t):
     return [x for x in ast.walk(t) if isinstance(x, ast.Name) and isinstance(x.ctx, ast.Store)]
 
 
+OPERATOR_MODULE = {"lt": "cmp:Lt", "le": "cmp:LtE", "gt": "cmp:Gt", "ge": "cmp:GtE", "eq": "cmp:Eq", "ne": "cmp:NotEq", "add": "Add", "sub": "Sub",
+                   "mul": "Mult", "truediv": "Div", "floordiv": "FloorDiv", "mod": "Mod", "pow": "Pow"}
+
+
 class Resolver:
     def __init__(self, model, fn, flow=True, inline=True):
         """flow=True: names are resolved through the definitions *reaching* the use (CFG-based
@@ -208,6 +212,8 @@ class Resolver:
                 else:
                     args.append(T(a))
             kws = [(k.arg, T(k.value)) for k in e.keywords]
+            if ft[0] == "attr" and ft[1] in (("name", "operator"), ("name", "_operator")) and ft[2] in OPERATOR_MODULE and len(args) == 2 and not kws:
+                return ("op", OPERATOR_MODULE[ft[2]], tuple(args))  # operator.lt(a, b) is a < b
             callee = self._callee(f, ft)
             if callee is not None:
                 args, kws = _positional(callee, args, kws, bound=not isinstance(f, ast.Name) or callee.name == "__init__")
